@@ -384,7 +384,10 @@ class PEP8Normalizer(ErrorFinder):
         if type_ == 'error_leaf':
             return
 
-        if value == ',' and part.parent.type == 'dictorsetmaker':
+        if value == ',' and part.parent.type == 'dictorsetmaker' \
+                and self._indentation_tos.type == IndentationTypes.IMPLICIT:
+            # Only dict values (`key: value,`) open an implicit indentation,
+            # set items and `**mapping` don't.
             self._indentation_tos = self._indentation_tos.parent
 
         node = self._indentation_tos
